@@ -577,6 +577,22 @@ def disjuncts(e):
     """Top-level disjuncts of the truthiness of e (truth_nnf, with `x or (not x and y)` absorbed to `x or y`)."""
     t = truth_nnf(e)
     ds = list(t.values) if isinstance(t, ast.BoolOp) and isinstance(t.op, ast.Or) else [t]
+    # `x is None` is one way of `not x`: beside the disjunct `not x` it adds nothing
+    nots = {norm(d.operand) for d in ds if isinstance(d, ast.UnaryOp) and isinstance(d.op, ast.Not)}
+    ds = [d for d in ds if not (isinstance(d, ast.Compare) and len(d.ops) == 1 and isinstance(d.ops[0], ast.Is) and isinstance(d.comparators[0], ast.Constant)
+                                and d.comparators[0].value is None and norm(d.left) in nots)]
+    for _round in range(4):          # absorption to a fixed point: a disjunct freed of one conjunct can absorb in the next one
+        new_ds = _absorb_once(ds)
+        if [norm(d) for d in new_ds] == [norm(d) for d in ds]:
+            break
+        ds = new_ds
+    nots = {norm(d.operand) for d in ds if isinstance(d, ast.UnaryOp) and isinstance(d.op, ast.Not)}
+    ds = [d for d in ds if not (isinstance(d, ast.Compare) and len(d.ops) == 1 and isinstance(d.ops[0], ast.Is) and isinstance(d.comparators[0], ast.Constant)
+                                and d.comparators[0].value is None and norm(d.left) in nots)]
+    return ds
+
+
+def _absorb_once(ds):
     plain = {norm(d) for d in ds if not (isinstance(d, ast.BoolOp) and isinstance(d.op, ast.And))}
     out = []
     for d in ds:
